@@ -6,6 +6,8 @@ functions) against fromdict of the default engine on well-typed documents and th
 stream.  Direct predicates on the implementation, BOTH engines (default and v1): every
 returned instance passes the independent Python conformance checker; the input document
 equals its deep copy taken before the call; from_json agrees.
+v1 engine: theorems C05_v1_* (model coq/model/V1Base.v V1Gen.v V1Eval.v shared with C02/C14; conformance
+coq/model/V1Conf.v; proofs coq/proofs/V1ConfProofs.v); correspondence run_v1_model below (runner harness/impl/c02.py).
 """
 import json, copy
 from props.core_gen import Gen, systematic_types, type_stats, type_depth
@@ -28,10 +30,14 @@ META = {
     'title': 'Load returns a conforming instance or raises; it never mutates its input',
     'level': 'proof',
     'technique': 'Coq proof (induction over the type grammar with inversion on each parser success path) on a hand-written '
-                 'Gallina model of loaders.py/parsers.py + differential correspondence + direct conformance predicate on both engines',
+                 'Gallina model of loaders.py/parsers.py; for v1: induction over the call budget and the mutual type grammar on the '
+                 'loader specification load_v1, lifted to the generated code through compiler correctness (C02_gen_sound) '
+                 '+ differential correspondence + direct conformance predicate on both engines',
     'design_ref': 'DESIGN.md section 4 C05',
     'theorems': ['C05_v0_conforms_lax', 'C05_v0_partial', 'C05_refuted_tuple_short', 'C05_refuted_union_none_first',
-                 'C05_refuted_none_annotation', 'C05_load_hooks_table'],
+                 'C05_refuted_none_annotation', 'C05_load_hooks_table',
+                 'C05_v1_conforms', 'C05_v1_cls_conforms', 'C05_v1_code_conforms_partial', 'C05_v1_code_conforms_coherent_partial',
+                 'C05_v1_table_oracle', 'C05_v1_leaf_premise_needed'],
     'tables': ['CoreDumpHooks'],
     'level_text': ('Proved in Coq for EVERY annotation of the grammar, EVERY oracle behaviour of the stdlib functions and EVERY '
                    'input value (no well-typedness hypothesis): whatever the default-engine loader model returns is a value of the '
@@ -39,8 +45,17 @@ META = {
                    'members may come back short; Union[None, X] keeps its input through the None member) - each proved to be a real violation of the '
                    'strict statement by a witness (C05_refuted_*), replayed on the implementation as findings F45, F46, F55; on the region '
                    'safe_ty the strict statement is proved (C05_v0_partial). The model is re-validated against fromdict on well-typed '
-                   'and malformed documents on every run. The v1 engine has no model here: it is covered by the direct predicate '
-                   '(independent conformance checker on every returned instance) and the malformed stream only.'),
+                   'and malformed documents on every run. v1 engine (model shared with C02/C14): for EVERY class table (cyclic included), EVERY '
+                   'annotation of the v1 grammar, EVERY input value, EVERY budget and EVERY leaf-conversion oracle that returns values of the '
+                   'leaf\'s own type (leaf_sound, the one premise; decided on the oracle tables and audited on the implementation on every run), '
+                   'whatever the loader specification load_v1 returns is a value of the annotated type (conforms_v1: exact container kind, element '
+                   'types, hashable set elements / dict keys, fixed-tuple arity, dict/defaultdict factory, NamedTuple, TypedDict required and declared '
+                   'keys, Literal by value and type, Optional, Union member, nested dataclass with every init field) - strict, except that a field '
+                   'whose key is absent holds the default its class declares; and so is whatever the GENERATED CODE returns, under the decidable '
+                   'premise of compiler correctness (function names of the final recursion guard distinct; fails only for F9 of C02). No leniency '
+                   'of the default engine exists in v1 (probed on /repo and refuted for none). On every run load_cls, run_main and conforms_v1 '
+                   'are compared with the v1 loads of the implementation and with an independent Python conformance checker on well-typed and '
+                   'malformed documents, and the two checkers are compared on mutated (mostly non-conforming) values.'),
     'level_note': ('Trusted: Coq kernel + vm_compute; the hand-written model; the oracle table (answers of int()/float()/str()/'
                    'fromisoformat/fromtimestamp/UUID/Decimal/Path/pytimeparse computed by the real functions on the leaves of each '
                    'document). Input immutability is carried by the direct predicate only (a pure model cannot mutate). '
@@ -55,12 +70,22 @@ META = {
              '(1 / 1.0 / True, "1" / 1) and by a scalar of every OTHER JSON kind (retype), list -> one shorter / one longer, position -> null. Each document x {default, v1, from_json}; every document OBJECT is loaded twice '
              '(same outcome required) and compared with its deep copy afterwards. History axis: for half of the class models the well-typed document is written by the independent '
              'reference encoder so that the FIRST operation on the classes is a load (no dump before), for the other half it is asdict output. '
-             'Non-trivial: the document differs from the well-typed one or the class has a container/union/class layer. Distinct: distinct (class digest | document digest | engine).'),
+             'Non-trivial: the document differs from the well-typed one or the class has a container/union/class layer. Distinct: distinct (class digest | document digest | engine). '
+             'v1 model stream: class models in the vocabulary of the v1 model (quick 20, thorough 110): 4 fields drawn from {every leaf, every Union/Literal atom} x '
+             '{bare, each of 19 container contexts} + a sample of depth-2 compositions, + a nested chain Root -> container of Mid -> Optional[Leaf] with a recursive edge, '
+             'Literal / Union members and defaulted fields; key case None / AUTO / CAMEL; 1 well-typed document + 12 (quick) / 24 (thorough) mutations (junk from a 32-value pool, '
+             'list shorter / longer / doubled, key dropped / upper-cased / added / duplicated, ==-but-differently-typed scalars); 4 / 8 mutated VALUES per model for the '
+             'checker-vs-checker comparison; every leaf-oracle answer audited.'),
     'trusted_base': ['model coq/model/CoreLoad.v (parser per annotation, scalar coercions, Union scan + tag dispatch, Literal, tuple arity window, '
                      'TypedDict required keys, cls_fromdict key resolution and defaults)',
                      'harness/impl/core_rt.py conforms(): independent Python conformance checker',
-                     'harness/impl/c05.py oracle_table(): stdlib answers for the model'],
-    'assumptions': ['defaults declared in a class conform to their annotation (wf_ty) - a non-conforming default is the declaration, not the loader',
+                     'harness/impl/c05.py oracle_table(): stdlib answers for the model',
+                     'v1: models coq/model/V1Base.v V1Gen.v V1Eval.v (specification load_v1 and generated-code evaluator; compiler correctness '
+                     'proved in V1GenSound.v), coq/model/V1Conf.v (conforms_v1), harness/impl/c02.py (v1 runner, leaf oracle), '
+                     'harness/props/c05.py v1_conf(): independent Python conformance checker over runner trees'],
+    'assumptions': ['v1: leaf_sound - a leaf conversion that returns, returns a value of its own leaf type (premise of C05_v1_*; '
+                    'table_sound decides it on each oracle table, C05_v1_table_oracle; audited on the implementation on every run)',
+                    'defaults declared in a class conform to their annotation (wf_ty) - a non-conforming default is the declaration, not the loader',
                     'model inputs outside the modelled fragment (non-ASCII str where the loader iterates/lower()s it, tokens/bytes as input) give '
                     'Err EUnmodelled and are excluded from the model comparison (counted in the evidence)'],
 }
@@ -462,9 +487,434 @@ def run(ctx):
         len(cases), sum(len(r.get('docs', [])) for r in results), n_cmp, n_unmod, n_dis))
     if n_cmp and n_unmod > 0.25 * (n_cmp + n_unmod):
         ctx.broken_tie('more than 25%% of the documents fall outside the modelled fragment (%d of %d)' % (n_unmod, n_cmp + n_unmod))
+    # ---- v1 engine: specification / generated code / conforms_v1 against the implementation and the Python checker
+    run_v1_model(ctx)
+
+
+# ============================================================================ v1 engine: model tie
+# Class models in the vocabulary of the v1 model (props/c02gen.py, props/c02.py: read-only, shared with
+# C02 / C14), run by the v1 runner harness/impl/c02.py.  Per document: load_cls (specification) and run_main
+# (generated code) of the Gallina model, the verdicts of conforms_v1 on what the model returns, the audit of the
+# oracle table (premise leaf_sound of C05_v1_conforms) - against the implementation's outcome and against the
+# independent Python conformance checker below (transcribed from the property text, over runner trees).
+V1_JUNK = [['N'], ['B', True], ['B', False], ['I', '0'], ['I', '1'], ['I', '-7'], ['I', str(2 ** 70)], ['F', (1.5).hex()], ['F', (1.0).hex()],
+           ['F', 'nan'], ['F', 'inf'], ['S', ''], ['S', 'abc'], ['S', '1'], ['S', '1.5'], ['S', 'true'], ['S', 'r'], ['S', '2020-01-01'],
+           ['S', '12:30:00'], ['S', 'YQ=='], ['S', '00000000-0000-0000-0000-000000000000'], ['L', []], ['L', [['I', '1']]],
+           ['L', [['S', 'a'], ['S', 'b']]], ['L', [['N']]], ['L', [['L', [['I', '1']]]]], ['D', None, []],
+           ['D', None, [[['S', 'a'], ['I', '1']]]], ['L', [['I', '1'], ['I', '2'], ['I', '3']]], ['L', [['B', True], ['S', 'x']]],
+           ['D', None, [[['S', 'rk'], ['S', '1']], [['S', 'zz'], ['N']]]], ['S', 'ab']]
+
+
+def v1_leaf_conf(l, v):
+    """a value of a leaf annotation: the concrete Python type (bool is not an int)"""
+    if l == 'any':
+        return True
+    tag = {'str': 'S', 'int': 'I', 'float': 'F', 'bool': 'B', 'none': 'N', 'nonebare': 'N', 'bytes': 'Y', 'bytearray': 'A'}.get(l)
+    if tag is not None:
+        return v[0] == tag
+    return v[0] == 'O' and v[1] == l
+
+
+def v1_conf(t, v, m):
+    """independent conformance checker over runner trees (harness/impl/c02.py tree_of); None = conforms, else why not"""
+    from props import c02gen as G
+    k = t['k']
+    if k == 'leaf':
+        return None if v1_leaf_conf(t['l'], v) else 'leaf %s holds %s' % (t['l'], v[0] + (':' + str(v[1]) if v[0] == 'O' else ''))
+    if k == 'seq':
+        if v[0] != G.SEQ_TAG[t['kind']]:
+            return '%s holds %s' % (t['kind'], v[0])
+        for x in v[1]:
+            w = v1_conf(t['t'], x, m)
+            if w: return w
+        return None
+    if k == 'tuple':
+        if v[0] != 'T' or len(v[1]) != len(t['ts']):
+            return 'fixed tuple of %d holds %s/%s' % (len(t['ts']), v[0], len(v[1]) if v[0] == 'T' else '-')
+        for tt, x in zip(t['ts'], v[1]):
+            w = v1_conf(tt, x, m)
+            if w: return w
+        return None
+    if k == 'dict':
+        want = G.dd_factory(t['vt']) if t['dd'] else 'OrderedDict' if t.get('od') else None
+        if v[0] != 'D' or v[1] != want:
+            return 'dict(%s) holds %s(%s)' % (want, v[0], v[1] if v[0] == 'D' else '')
+        for kk, x in v[2]:
+            w = v1_conf(t['kt'], kk, m) or v1_conf(t['vt'], x, m)
+            if w: return w
+        return None
+    if k in ('opt', 'optr'):
+        return None if v == ['N'] else v1_conf(t['t'], v, m)
+    if k == 'union':
+        ws = [v1_conf(x, v, m) for x in t['ts']]
+        return None if any(w is None for w in ws) else 'no Union member: ' + '; '.join(ws)[:200]
+    if k == 'lit':
+        trees = [['N'] if a is None else ['B', a] if isinstance(a, bool) else ['I', str(a)] if isinstance(a, int) else ['S', a] for a in t['vs']]
+        return None if v in trees else 'not a Literal member: %s' % (v,)
+    if k == 'named':
+        fs = m['named'][t['name']]
+        if v[0] != 'M' or v[1] != G.nt_name(m, t['name']) or len(v[2]) != len(fs):
+            return 'NamedTuple %s holds %s' % (t['name'], v[:2])
+        for (_, tt), x in zip(fs, v[2]):
+            w = v1_conf(tt, x, m)
+            if w: return w
+        return None
+    if k == 'typed':
+        d = m['typed'][t['name']]
+        if v[0] != 'D' or v[1] is not None:
+            return 'TypedDict holds %s' % (v[:2],)
+        tys = dict((key, tt) for key, tt in d['req'] + d['opt'])
+        have = {}
+        for kk, x in v[2]:
+            if kk[0] != 'S' or kk[1] not in tys:
+                return 'TypedDict %s has undeclared key %s' % (t['name'], kk)
+            have[kk[1]] = x
+            w = v1_conf(tys[kk[1]], x, m)
+            if w: return w
+        miss = [key for key, _ in d['req'] if key not in have]
+        return 'TypedDict %s lacks %s' % (t['name'], miss) if miss else None
+    if k == 'data':
+        cd = m['classes'][t['c']]
+        if v[0] != 'C' or v[1] != cd['name'] or [f for f, _ in v[2]] != [f['name'] for f in cd['fields']]:
+            return 'class %s holds %s' % (cd['name'], v[:2])
+        for f, (_, x) in zip(cd['fields'], v[2]):
+            w = v1_conf(f['ty'], x, m)
+            if w: return 'field %s.%s: %s' % (cd['name'], f['name'], w)
+        return None
+    return 'unknown annotation kind %s' % k
+
+
+def v1_coq_val(v, m):
+    """runner tree -> Gallina pv, instances included"""
+    from props import c02gen as G
+    tag = v[0]
+    if tag == 'C':
+        c = [i for i, cd in enumerate(m['classes']) if cd['name'] == v[1]][0]
+        return '(VInst %d %s)' % (c, G.clist(['(%s, %s)' % (G.cstr(f), v1_coq_val(x, m)) for f, x in v[2]]))
+    if tag in G.TAG_SEQ:
+        return '(VSeq %s %s)' % (G.COQ_KIND[G.TAG_SEQ[tag]], G.clist([v1_coq_val(x, m) for x in v[1]]))
+    if tag == 'D':
+        dd = 'None' if v[1] is None else '(Some %s)' % G.cstr(v[1])
+        return '(VDict %s %s)' % (dd, G.clist(['(%s, %s)' % (v1_coq_val(k, m), v1_coq_val(x, m)) for k, x in v[2]]))
+    if tag == 'M':
+        return '(VNamed %s %s)' % (G.cstr(v[1]), G.clist([v1_coq_val(x, m) for x in v[2]]))
+    if tag == 'F' and v[1] in ('nan', 'inf', '-inf'):
+        return '(VFloat %s)' % G.cstr(v[1])
+    return G.coq_pv(v)
+
+
+def v1_paths(v, pre=()):
+    """every node of a tree (documents and values alike): path = tuple of ('i', n) | ('k', n) | ('v', n) | ('f', n)"""
+    out = [pre]
+    tag = v[0]
+    if tag in ('L', 'T', 'E', 'Z', 'Q'):
+        for i, x in enumerate(v[1]):
+            out += v1_paths(x, pre + (('i', i),))
+    elif tag == 'D':
+        for i, (kk, x) in enumerate(v[2]):
+            out += v1_paths(x, pre + (('v', i),))
+    elif tag == 'M':
+        for i, x in enumerate(v[2]):
+            out += v1_paths(x, pre + (('m', i),))
+    elif tag == 'C':
+        for i, (f, x) in enumerate(v[2]):
+            out += v1_paths(x, pre + (('f', i),))
+    return out
+
+
+def v1_get(v, path):
+    for s, i in path:
+        v = v[1][i] if s == 'i' else v[2][i][1] if s in ('v', 'f') else v[2][i]
+    return v
+
+
+def v1_set(v, path, new):
+    if not path:
+        return new
+    v = copy.deepcopy(v)
+    cur = v1_get(v, path[:-1])
+    s, i = path[-1]
+    if s == 'i': cur[1][i] = new
+    elif s in ('v', 'f'): cur[2][i][1] = new
+    else: cur[2][i] = new
+    return v
+
+
+def v1_mutations(doc, r, n):
+    """malformed stream over a well-typed document: junk at a position, list one shorter / one longer / doubled,
+    key dropped / renamed / added, ==-but-differently-typed scalars"""
+    out = []
+    paths = v1_paths(doc)
+    for _ in range(n * 3):
+        if len(out) >= n:
+            break
+        path = r.choice(paths)
+        node = v1_get(doc, path)
+        c = r.random()
+        if node[0] == 'D' and c < 0.45 and node[2]:
+            new = copy.deepcopy(node)
+            i = r.randrange(len(new[2]))
+            w = r.random()
+            if w < 0.35: del new[2][i]
+            elif w < 0.55 and new[2][i][0][0] == 'S': new[2][i][0] = ['S', new[2][i][0][1].upper()]
+            elif w < 0.8: new[2].append([['S', 'zzUnknown'], r.choice(V1_JUNK)])
+            else: new[2].append(copy.deepcopy(new[2][i]))
+            out.append((v1_set(doc, path, new), 'keys'))
+        elif node[0] == 'L' and c < 0.5:
+            w = r.random()
+            new = ['L', node[1][:-1]] if (w < 0.4 and node[1]) else ['L', node[1] + [r.choice(V1_JUNK)]] if w < 0.75 else ['L', node[1] + node[1]]
+            out.append((v1_set(doc, path, new), 'arity'))
+        elif node[0] in ('I', 'B', 'F', 'S') and c < 0.3:
+            if node[0] == 'I':
+                alt = [['S', node[1]]] + ([['F', float(int(node[1])).hex()]] if abs(int(node[1])) < 2 ** 53 else [])
+            elif node[0] == 'B':
+                alt = [['I', str(int(node[1]))], ['F', float(node[1]).hex()]]
+            elif node[0] == 'F':
+                alt = [['S', node[1]]]
+            else:
+                alt = [['L', [['S', ch] for ch in node[1][:3]]]]
+            out.append((v1_set(doc, path, r.choice(alt)), 'eqtype'))
+        else:
+            out.append((v1_set(doc, path, copy.deepcopy(r.choice(V1_JUNK))), 'junk'))
+    return out
+
+
+def v1_models(ctx):
+    from props import c02 as C2
+    from props import c02gen as G
+    r = ctx.sub_rng('v1models')
+    quick = ctx.tier == 'quick'
+    # every leaf x every container context (depth 1), a rotating sample of depth 2, atoms (Unions / Literals) in every context
+    pool = []
+    # `optr` (Union[None, T], None first) is left out: typing caches Union objects modulo argument order, so once one model of the
+    # interpreter has created Union[None, bytes] a later model's Optional[bytes] IS that object and shows F52 of C02 (always None) -
+    # a history artefact of running many models in one interpreter; Union[None, X] is covered by the `spellings` cases above
+    ctxs = [c for c in C2.CONTEXTS if c != 'optr']
+    for l in C2.ALL_LEAVES:
+        pool.append(([], l))
+        for c in ctxs:
+            pool.append(([c], l))
+    for _, mk in C2.ATOMS:
+        pool.append(([], mk))
+        for c in ctxs:
+            pool.append(([c], mk))
+    d2 = [([a, b], l) for l in C2.ALL_LEAVES for a in ctxs for b in ctxs]
+    r.shuffle(d2)
+    pool += d2[:(60 if quick else 500)]
+    r.shuffle(pool)
+    n_models = 20 if quick else 110
+    pool = pool[:n_models * 4]
+    out = []
+    for mi in range(n_models):
+        mb = C2.MB(900 + mi, key_case=[None, 'AUTO', 'CAMEL'][mi % 3])
+        mb.cls([])
+        fields = []
+        for cs, l in pool[mi * 4:(mi + 1) * 4]:
+            t = C2.compose(cs, l() if callable(l) else l, mb)
+            if t is None:
+                continue
+            if any(c in ('dictk', 'ddictk', 'odictk') for c in cs) and not C2.json_keys_ok(t, mb.m):
+                continue
+            fields.append(t)
+        # a nested chain: Root -> (container of) Mid -> Optional[Leaf]; one defaulted field per class; one recursive edge
+        leafc = mb.cls([('leaf_num', G.leaf('int')), ('leaf_tag', G.lit('a', 'b', 3), None), ('note', G.leaf('str'), 'str0')])
+        midc = mb.cls([('my_leaf', G.opt(G.data(leafc))), ('vals', G.seq('list', G.union(G.leaf('int'), G.leaf('str')))),
+                       ('extra', G.opt(G.leaf('int')), 'none')])
+        mb.m['classes'][midc]['fields'].append({'name': 'again', 'ty': G.opt(G.data(midc)), 'default': 'none'})
+        wrap = r.choice(['id', 'list', 'dictv', 'opt', 'tup1', 'named', 'typedr', 'typedo'])
+        nest = G.data(midc) if wrap == 'id' else C2.CONTEXTS[wrap](G.data(midc), mb)
+        names = list(G.FIELD_NAMES)
+        r.shuffle(names)
+        fs = [{'name': names[i], 'ty': t, 'default': None} for i, t in enumerate(fields)] + [{'name': 'the_mid', 'ty': nest, 'default': None}]
+        r.shuffle(fs)
+        mb.m['classes'][0]['fields'] = fs + [{'name': 'opt_num', 'ty': G.leaf('int'), 'default': 'int0'}]
+        mb.m['classes'][0]['name'] = 'V1Root%d' % mi
+        out.append(mb)
+    return out
+
+
+def v1_ascii(t):
+    """restrict generated text leaves to ASCII (the Gallina strings are byte strings)"""
+    if t[0] == 'S':
+        return ['S', ''.join(ch if ord(ch) < 128 else 'x' for ch in t[1])]
+    if t[0] in ('L', 'T', 'E', 'Z', 'Q'):
+        return [t[0], [v1_ascii(x) for x in t[1]]]
+    if t[0] == 'D':
+        return ['D', t[1], [[v1_ascii(k), v1_ascii(x)] for k, x in t[2]]]
+    if t[0] == 'M':
+        return ['M', t[1], [v1_ascii(x) for x in t[2]]]
+    if t[0] == 'C':
+        return ['C', t[1], [[f, v1_ascii(x)] for f, x in t[2]]]
+    return t
+
+
+def run_v1_model(ctx):
+    import os
+    from props import c02 as C2
+    from props import c02gen as G
+    quick = ctx.tier == 'quick'
+    mbs = v1_models(ctx)
+    r = ctx.sub_rng('v1docs')
+    kinds = []
+    for mb in mbs:
+        m = mb.m
+        inst = v1_ascii(C2.gen_inst(ctx.sub_rng('v1inst', mb.mi), 0, m))
+        doc = G.dump_doc(inst, G.data(0), m, ctx.sub_rng('v1keys', mb.mi))
+        muts = v1_mutations(doc, r, 12 if quick else 24)
+        m['instances'] = []
+        m['docs'] = [doc] + [d for d, _ in muts]
+        kinds.append(['welltyped'] + [k for _, k in muts])
+    impl = ctx.impl('c02', {'models': [mb.m for mb in mbs]}, timeout=1200)['models']
+
+    # ---- direct predicates on the implementation (independent of the model)
+    vals_for_checker = {}
+    for mi, (mb, res) in enumerate(zip(mbs, impl)):
+        m = mb.m
+        if res.get('setup_err') or res.get('gen_err'):
+            ctx.broken_tie('harness could not set up v1 model %d' % mi, str(res.get('setup_err') or res.get('gen_err'))[:1500])
+            continue
+        for l, o, v, a in res['oracle']:
+            # premise leaf_sound, audited on the implementation: a leaf loader that returns, returns its own type
+            ctx.count(1, key='v1leaf|%s|%s|%s' % (l, o, json.dumps(v)), nontrivial=False)
+            if 'ok' in a and not v1_leaf_conf(l, a['ok']) and not (o and a['ok'] == ['N']):
+                ctx.violation('C05 direct predicate fails: v1 leaf loader for %s returned a value of another type (%s)' % (l, a['ok'][:2]),
+                              {'kind': 'v1leaf', 'leaf': l, 'inopt': o, 'value': v})
+        for di, (d, out) in enumerate(zip(m['docs'], res.get('docs', []))):
+            ctx.count(1, key='v1m|%d|%s' % (mi, json.dumps(d, sort_keys=True)[:400]), nontrivial=(di > 0))
+            ctx.hist('v1_doc_kind', kinds[mi][di])
+            ctx.hist('outcome_v1_model_stream', 'returns' if 'ok' in out else 'raises')
+            if 'ok' in out:
+                why = v1_conf(G.data(0), out['ok'], m)
+                if why:
+                    ctx.violation('C05 direct predicate fails: v1: returned a non-conforming instance: %s' % why,
+                                  {'kind': 'v1doc', 'model': {**m, 'docs': [d], 'instances': []}})
+                elif di == 0:
+                    vals_for_checker[mi] = out['ok']
+
+    # ---- model side
+    shards, index = [], []
+    try:
+        for mi, (mb, res) in enumerate(zip(mbs, impl)):
+            if res.get('setup_err') or res.get('gen_err') or 'keys' not in res:
+                continue
+            m = mb.m
+            try:
+                pre = 'Definition ct : ctable := %s.\nDefinition tb : list oentry := %s.' % (
+                    G.coq_ct(m, res['keys']),
+                    # the runner's oracle box for an Optional leaf answers None for None; the model never asks `conv l true None`
+                    # (TOpt answers None itself), so that artefact entry is left out - were it asked, the model would answer XOracle (never a pass)
+                    G.coq_oracle([(l, o, v, a) for l, o, v, a in res['oracle'] if not (o and v == ['N'])]))
+                exs = ['case_conf tb ct %d 0 %s' % (C2.BUDGET, G.coq_pv(d)) for d in m['docs']]
+            except ValueError as e:
+                ctx.hist('v1_model_skipped', str(e)[:60])
+                continue
+            idx = [(mi, 'doc', di) for di in range(len(exs))]
+            # the two conformance checkers on the SAME (mostly non-conforming) values: the loaded instance with one position replaced
+            base = vals_for_checker.get(mi)
+            if base is not None:
+                rr = ctx.sub_rng('v1vals', mi)
+                ps = v1_paths(base)
+                for _ in range(4 if quick else 8):
+                    pth = rr.choice(ps)
+                    node = v1_get(base, pth)
+                    w = rr.random()
+                    if node[0] in ('L', 'T', 'Q') and w < 0.4:
+                        new = [rr.choice(['L', 'T', 'Q']), node[1][:-1] if (node[1] and w < 0.2) else node[1]]
+                    elif node[0] == 'D' and w < 0.4 and node[2]:
+                        new = ['D', node[1], node[2][:-1]]
+                    else:
+                        new = rr.choice(V1_JUNK)
+                    val = v1_set(base, pth, copy.deepcopy(new))
+                    if val[0] != 'C':
+                        continue
+                    try:
+                        exs.append('show_b (conforms_cls ct false %d 0 %s)' % (C2.BUDGET, v1_coq_val(val, m)))
+                        idx.append((mi, 'val', val))
+                    except (ValueError, IndexError):
+                        pass
+            SH = 30
+            for i in range(0, len(exs), SH):
+                shards.append((pre, exs[i:i + SH]))
+                index.append(idx[i:i + SH])
+        outs = G.coq_shards(os.path.join(ctx.workdir, 'v1conf'), C2.IMPORTS + ['V1Conf'], shards, jobs=6 if quick else 10, timeout=900)
+    except Exception as e:
+        ctx.broken_tie('v1 model evaluation failed: %s' % str(e)[:800])
+        return
+    n_cmp = n_dis = n_ok = n_vals = n_vals_bad = 0
+    for idx, out in zip(index, outs):
+        for (mi, what, x), o in zip(idx, out):
+            m = mbs[mi].m
+            if what == 'val':
+                n_vals += 1
+                py = v1_conf(G.data(0), x, m) is None
+                n_vals_bad += (not py)
+                ctx.traces_validated += 1
+                if (o == '1') != py:
+                    ctx.disagreements_checked += 1
+                    ctx.broken_tie('conforms_v1 (Coq) and the Python conformance checker disagree on a value',
+                                   {'value': x, 'coq': o, 'python': v1_conf(G.data(0), x, m), 'classes': m['classes']})
+                continue
+            d = m['docs'][x]
+            iout = impl[mi]['docs'][x]
+            parts = o.split('#')
+            spec, code = G.parse_res(parts[0], m), G.parse_res(parts[1], m)
+            n_cmp += 1
+            ctx.traces_validated += 1
+            if 'marker' in spec:
+                ctx.hist('v1_model_skipped', 'marker ' + spec['marker'])
+                continue
+            bad = []
+            if parts[3] != '1':
+                bad.append('oracle table violates leaf_sound (premise of C05_v1_conforms)')
+            if parts[0] != parts[1]:
+                bad.append('generated code and specification differ in the model (names not distinct?)')
+            # C05 compares returns-vs-raises and the returned value (which error is raised is C14's subject)
+            if ('ok' in spec) != ('ok' in iout) or ('ok' in spec and G.norm(spec['ok']) != G.norm(iout['ok'])):
+                bad.append('load_cls (model) and fromdict (v1) disagree')
+            if 'ok' in spec:
+                n_ok += 1
+                if parts[2][1] != '1':
+                    bad.append('conforms_v1 rejects what load_v1 returned (instance of the theorem fails?)')
+                if parts[4] == '1' and parts[2][0] != '1':
+                    bad.append('strict conforms_v1 rejects the result although every declared default conforms')
+                why = v1_conf(G.data(0), spec['ok'], m)
+                if why:
+                    bad.append('the Python checker rejects what the model returned: %s' % why)
+            if bad:
+                n_dis += 1
+                ctx.disagreements_checked += 1
+                if n_dis <= 5:
+                    ctx.broken_tie('v1 model tie: ' + '; '.join(bad),
+                                   {'doc': d, 'impl': {k: v for k, v in iout.items() if k in ('ok', 'err', 'kind', 'cls', 'fld', 'names')},
+                                    'model': o[:1500], 'classes': m['classes'], 'named': m['named'], 'typed': m['typed'], 'key_case': m.get('key_case')})
+    ctx.notes.append('v1 model: classes=%d documents=%d (model returns on %d) disagreements=%d; checker-vs-checker values=%d (non-conforming %d)' % (
+        len(mbs), n_cmp, n_ok, n_dis, n_vals, n_vals_bad))
+
+
+def replay_v1(ctx, obj):
+    from props import c02gen as G
+    if obj['kind'] == 'v1leaf':
+        res = ctx.impl('c02', {'models': [{'classes': [{'name': 'LeafOnly', 'fields': [{'name': 'xval', 'ty': G.leaf(obj['leaf']) if not obj['inopt'] else G.opt(G.leaf(obj['leaf'])), 'default': None}]}],
+                                          'named': {}, 'typed': {}, 'key_case': None, 'dump': None, 'root': 0, 'instances': [],
+                                          'docs': [['D', None, [[['S', 'xval'], obj['value']]]]], 'json': True}]})['models'][0]
+        out = res['docs'][0]
+        m = {'classes': [{'name': 'LeafOnly', 'fields': [{'name': 'xval', 'ty': G.leaf(obj['leaf']) if not obj['inopt'] else G.opt(G.leaf(obj['leaf']))}]}], 'named': {}, 'typed': {}}
+    else:
+        m = obj['model']
+        res = ctx.impl('c02', {'models': [m]})['models'][0]
+        if res.get('setup_err') or res.get('gen_err'):
+            print('setup failed: %s' % (res.get('setup_err') or res.get('gen_err'))); return False
+        out = res['docs'][0]
+    if 'ok' not in out:
+        print('v1: raises %s -> property holds' % out.get('err')); return True
+    why = v1_conf(G.data(0), out['ok'], m)
+    print('v1: %s -> %s' % (json.dumps(out['ok'])[:300], ('non-conforming: ' + why) if why else 'property holds'))
+    return why is None
 
 
 def replay(ctx, obj):
+    if obj.get('kind') in ('v1doc', 'v1leaf'):
+        return replay_v1(ctx, obj)
     if obj.get('kind') == 'doc':
         res = ctx.impl('c05', {'cases': [strip(obj['case'], [obj['doc']])]})['cases'][0]
         if 'setup_err' in res:
